@@ -46,8 +46,9 @@ def symx(facts, n):
         return sympy.Symbol("sizeof(%s)" % n.get("argtype", facts.ntext(n)).replace(" ", ""))
     if k == "DeclRefExpr" and n.get("dk") == "Var" and n.get("local"):
         d = local_decl(facts, n["did"])
-        if d is not None and kids(d) and re.match(r"^(constexpr |const )", d.get("t", "") + " ") is not None or (d is not None and kids(d) and d.get("t", "").startswith("const")):
-            return symx(facts, kids(d)[0])
+        if d is not None and kids(d) and (re.match(r"^(constexpr |const )", d.get("t", "") + " ") is not None or d.get("t", "").startswith("const")
+                                          or d.get("t", "").rstrip().endswith("const") or d.get("constexpr")):
+            return symx(facts, kids(d)[0])       # a local that cannot change after its initialisation (const value, or const pointer)
     return sympy.Symbol(facts.ntext(n))
 
 
@@ -326,6 +327,8 @@ def strides(facts, res):
                 n = strip(n)
                 if n.get("k") == "BinaryOperator" and n.get("op") == "*":
                     return "*".join(sorted(cls_of(c) for c in kids(n)))
+                if n.get("k") in ("CallExpr", "CXXMemberCallExpr") and tbf.callee_name(n) == "GetLeadingDim":
+                    return "leadingDim"          # the stride returned directly instead of through a local
                 if n.get("k") == "DeclRefExpr":
                     d = sdecl.get(n.get("did"))
                     if d is not None and kids(d) and tbf.callee_name(strip(kids(d)[0])) == "GetLeadingDim":
